@@ -3,6 +3,7 @@
 package encoder
 
 import (
+	"github.com/bytedance/sonic/utf8"
 	"github.com/bytedance/sonic/internal/encoder/alg"
 	v "github.com/bytedance/sonic/internal/zzverif"
 )
@@ -75,6 +76,21 @@ func VerifC03EncodeFinish() {
 		out = encodeFinish(buf, opts)
 	}
 	if !v.Symbolic() {
+		// native oracle: text with HTML-escapable characters and an invalid UTF-8 byte through both
+		// finishing paths under the model's option word; reference = the two passes in order
+		raw := []byte("\"<a>&\xff\u2028\"")
+		ref := append([]byte{}, raw...)
+		if opts&EscapeHTML != 0 {
+			ref = HTMLEscape(nil, ref)
+		}
+		if opts&ValidateString != 0 && !utf8.Validate(ref) {
+			ref = utf8.CorrectWith(nil, ref, `\ufffd`)
+		}
+		got1 := encodeFinish(append([]byte{}, raw...), opts)
+		b2 := append([]byte{}, raw...)
+		encodeFinishWithPool(&b2, opts)
+		v.Assert(string(got1) == string(ref), "encodeFinish does not apply EscapeHTML then ValidateString")
+		v.Assert(string(b2) == string(ref), "encodeFinishWithPool does not apply EscapeHTML then ValidateString")
 		return
 	}
 	want := "xy"
